@@ -508,7 +508,13 @@ X05V(r) == FirstFail(<<
 >>)
 
 (***************************** dispatch ************************************)
+\* A record of kind "blocks" (any property that speaks about the lines of a section): the section under test was laid out so that
+\* block boundaries of every power-of-two size fall right behind, just after and inside its lines (harness/chartgen.py,
+\* block_aligned_chart); r.a = digest of what was written, r.b = digest of what the parsed chart holds.
+BlocksV(r) == FirstFail(<< <<"same-events-wherever-a-block-boundary-falls", r.a = r.b>> >>)
+
 VerdictOf(p, r) ==
+  IF "kind" \in DOMAIN r /\ r.kind = "blocks" THEN BlocksV(r) ELSE
   CASE p = "C02" -> C02V(r)
     [] p = "C03" -> C03V(r)
     [] p = "C04" -> C04V(r)
